@@ -129,6 +129,8 @@ func runImpl(src string, noReg bool) (res implRes) {
 			cl := "go"
 			if strings.Contains(msg, "max depth") {
 				cl = "depth"
+			} else if strings.Contains(msg, "exceed memory") {
+				cl = "memory"
 			}
 			finish("P", cl)
 			res.val = cl + ":" + msg
